@@ -48,7 +48,10 @@ def apply_edit(engine, ed: dict) -> None:
         elif t == "function_var":
             if isinstance(term, fl.Function) and term.variables:
                 key = sorted(term.variables)[ed["idx"] % len(term.variables)]
-                term.variables[key] = fdec(ed["v"])  # in place
+                if isinstance(term.variables[key], np.ndarray):
+                    term.variables[key][...] = fdec(ed["v"])  # in place in the array object itself
+                else:
+                    term.variables[key] = fdec(ed["v"])  # in place in the dict
     elif t == "range":
         v = var_of(engine, ed["var"])
         setattr(v, "minimum" if ed["which"] == "min" else "maximum", fdec(ed["v"]))
@@ -372,7 +375,14 @@ def set_inputs(engine, rows: list, setter: str = "vars") -> None:
         engine.input_values = arr.copy()  # the engine-level matrix setter
         return
     for c, iv in enumerate(engine.input_variables):
-        iv.value = float(arr[0, c]) if len(rows) == 1 else arr[:, c].copy()
+        if len(rows) > 1:
+            iv.value = arr[:, c].copy()
+        elif setter == "np0d":
+            iv.value = np.array(arr[0, c])  # a 0-d array, what fl.scalar(x) returns: a *mutable* scalar
+        elif setter == "npfloat":
+            iv.value = np.float64(arr[0, c])
+        else:
+            iv.value = float(arr[0, c])
 
 
 def components(engine) -> list:
